@@ -137,13 +137,12 @@ def replaceStep (p : Package) (acc : World × Nat) (pr : Nat × Option Rat) : Wo
   | .success => replacePlace p w o oid book newPrice cr.2.sizeCancelled failed
 
 /-- `SimulatedExecution.execute_replace`; instructions come from `replace_instructions`, which skips
-    EXECUTION_COMPLETE orders, and are zipped *positionally* with the (unfiltered) package orders -/
+    EXECUTION_COMPLETE orders; they are paired with the orders that were not skipped -/
 def executeReplace (w : World) (p : Package) : World :=
-  let orders := w.packageOrders p
-  let instrs : List (Option Rat) :=
-    (orders.filter fun oid => (w.order! oid).status ≠ some .executionComplete).map fun oid => (w.order! oid).ud.newPrice
-  let (w, failed) := (orders.zip instrs).foldl (replaceStep p) (w, 0)
-  let w := w.addTransaction p.client (w.packageOrders p).length
+  -- the orders that have not completed since the request, each with its own instruction (fix of the positional pairing)
+  let live := (w.packageOrders p).filter fun oid => (w.order! oid).status ≠ some .executionComplete
+  let (w, failed) := (live.map fun oid => (oid, (w.order! oid).ud.newPrice)).foldl (replaceStep p) (w, 0)
+  let w := w.addTransaction p.client live.length      -- the instructions that were sent
   if failed ≠ 0 then w.addTransaction p.client failed true else w
 
 /-- `SimulatedExecution.handler` -/
